@@ -170,6 +170,51 @@ def replay_task(task):
                 spec_pat = [[1 if (j + 1) in reach[o] else 0 for j in range(cfg["D"])] for o in range(len(reach))]
                 if pat != spec_pat and not bad:
                     out["drift"].append("%s %s ctx=%s: dependency pattern %s differs from the specification's path relation %s" % (copy, cfg, ctx, pat, spec_pat))
+        # inputs that are not [batch, features]: a single item [features] and [batch, time, features]
+        D, m = cfg["D"], cfg["m"]
+        for copy in ("transforms.made", "nn.nde.made"):
+            net = build_net(copy, cfg, draws=draws, ctx=None)
+            with torch.no_grad():
+                for p_ in net.parameters():
+                    p_.zero_()
+                for _, lin in masked_layers(net):
+                    lin.weight.fill_(1.0)
+            net.eval()
+            for shape in ((D,), (2, 2, D)):
+                out["n"] += 1
+                try:
+                    with torch.no_grad():
+                        x0 = torch.zeros(*shape)
+                        y0 = net(x0)
+                        bad = []
+                        for j in range(D):
+                            xj = x0.clone()
+                            xj[..., j] = 1.0
+                            dj = (net(xj) - y0).reshape(-1, D * m)[0]
+                            bad += [(o, j + 1) for o in range(D * m) if j >= o // m and float(dj[o]) != 0.0]
+                except Exception as e:  # noqa
+                    out["drift"].append("%s %s: input of shape %s raised %r" % (copy, cfg, shape, e))
+                    continue
+                if bad:
+                    out["fails"].append({"copy": copy, "cfg": cfg, "draws": draws, "ctx": None, "clause": "input_rank", "shape": list(shape), "detail": "input of shape %s: output unit %d (feature %d) depends on input %d" % (list(shape), bad[0][0], bad[0][0] // m + 1, bad[0][1])})
+        # random masks: a network built under OTHER draws that receives this network's state dict must be
+        # this network (masks and degrees travel) - and in particular autoregressive
+        if cfg["rnd"]:
+            for copy in ("transforms.made", "nn.nde.made"):
+                src = build_net(copy, cfg, draws=draws, ctx=None)
+                torch.manual_seed(seed + 991)
+                dst = build_net(copy, cfg, draws=None, ctx=None)
+                out["n"] += 1
+                try:
+                    dst.load_state_dict(src.state_dict())
+                except Exception as e:  # noqa
+                    out["drift"].append("%s %s: state dict of a random-mask network does not load into another one: %r" % (copy, cfg, e))
+                    continue
+                pat = ones_pattern(dst, D, None)
+                bad = [(o, [j + 1 for j, v in enumerate(row) if v and j >= o // m]) for o, row in enumerate(pat)]
+                bad = [b for b in bad if b[1]]
+                if bad:
+                    out["fails"].append({"copy": copy, "cfg": cfg, "draws": draws, "ctx": None, "seed": seed, "clause": "after_load", "detail": "random-mask network after loading another network's state dict: output unit %d (feature %d) depends on inputs %s" % (bad[0][0], bad[0][0] // m + 1, bad[0][1])})
         # generic weights, ReLU, batch norm / dropout, train and eval (subset relation)
         for copy, bn, dp, train in (("transforms.made", False, 0.0, False), ("nn.nde.made", True, 0.0, True), ("transforms.made", True, 0.3, True), ("nn.nde.made", False, 0.3, False)):
             net = build_net(copy, cfg, draws=draws, ctx=2, activation="relu", bn=bn, dropout=dp)
@@ -294,7 +339,24 @@ def main(run, replay=None):
         import torch
 
         torch.set_num_threads(1)
-        if c.get("clause") == "weights_after_history":
+        if c.get("clause") in ("input_rank", "after_load"):
+            import torch as _t
+
+            st = {"cfg": c["cfg"], "layers": [], "reach": [], "degs": []}
+            # rebuild the state from TLC to get layers / reach
+            res = T.run_tlc("Made", T.cfg(constants={"MaxD": max(4, c["cfg"]["D"]), "MaxH": max(3, c["cfg"]["H"]), "MaxBlocks": 2, "MaxMult": 3}, view="View"), dump=True, coverage=False, timeout=3000)
+            from vcore.tlaval import parse_state as _ps
+
+            for blk in re.split(r"^State \d+:\s*$", open(res.dump).read(), flags=re.M):
+                if '/\\ phase = "done"' in blk:
+                    s_ = _ps(blk)
+                    if to_py(s_["cfg"]) == c["cfg"]:
+                        st = {"cfg": c["cfg"], "layers": to_py(s_["layers"]), "reach": [set(int(j) for j in r) for r in s_["reach"]], "degs": to_py(s_["degs"])}
+                        if c["draws"] is None or [l["degs"] for l in st["layers"] if l["kind"] in ("initial", "ff")] == c["draws"]:
+                            break
+            out = replay_task(([st], c.get("seed", run.seed)))
+            bad = [f for f in out["fails"] if f["clause"] == c["clause"] and f["copy"] == c["copy"]]
+        elif c.get("clause") == "weights_after_history":
             out = use_task(([c["cfg"]], [[(h[0], tuple(h[1:])) for h in c["history"]]], c["seed"]))
             bad = out["fails"]
         elif c.get("clause") == "generic_weights":
